@@ -6,12 +6,14 @@ def sh(cmd, **kw): return subprocess.run(cmd, shell=True, capture_output=True, t
 def main():
     names = sys.argv[1:] or sorted(os.listdir(os.path.join(V, 'seeded')))
     man = json.load(open(os.path.join(V, 'MANIFEST.json'))); claimed = [c['property_id'] for c in man['checks']]
-    assert sh('git -C /repo status --porcelain --untracked-files=no').stdout.strip() == '', '/repo has local modifications'
+    W = '/tmp/seedrepo'
+    sh('git -C /repo worktree remove --force %s; rm -rf %s; git -C /repo worktree prune; git -C /repo worktree add --detach %s HEAD' % (W, W, W))
+    env = dict(os.environ, VERIF_REPO=W, VERIF_SCRATCH='/tmp/seedscratch')
     for nm in names:
         d = os.path.join(V, 'seeded', nm)
         if not os.path.exists(os.path.join(d, 'patch.diff')): continue
         meta = json.load(open(os.path.join(d, 'meta.json'))); prop = meta.get('property', nm[:3])
-        r = sh('git -C /repo apply %s/patch.diff' % d)
+        r = sh('git -C %s apply %s/patch.diff' % (W, d))
         if r.returncode != 0:
             print(nm, 'PATCH DOES NOT APPLY', r.stderr[:200]); continue
         res = {}
@@ -19,10 +21,11 @@ def main():
             targets = [prop] if prop in claimed else []
             targets += [c for c in claimed if c != prop] if os.environ.get('SEEDS_ALL') else []
             for c in targets:
-                t = time.time(); r = sh('./check %s quick' % c, cwd=V)
+                t = time.time(); r = sh('./check %s quick' % c, cwd=V, env=env)
                 res[c] = {'exit': r.returncode, 'violation_lines': r.stdout.count('VIOLATION property='), 'tail': r.stdout.strip().split('\n')[-1][:300], 'secs': round(time.time() - t, 1)}
         finally:
-            sh('git -C /repo checkout -- .')
+            sh('git -C %s checkout -- .' % W)
         json.dump({'seed': nm, 'property': prop, 'repo_head': sh('git -C /repo rev-parse --short HEAD').stdout.strip(), 'results': res}, open(os.path.join(d, 'detect.json'), 'w'), indent=1)
         print(nm, prop, {k: (v['exit'], v['violation_lines']) for k, v in res.items()} or 'no check for this property yet')
 main()
+sh('git -C /repo worktree remove --force /tmp/seedrepo; git -C /repo worktree prune')
